@@ -62,7 +62,7 @@ func init() {
 	reg(&Prop{ID: "C07", Level: "exploration",
 		Quick:    Tier{Cases: 3200, PerJob: 200, Seconds: 60},
 		Thorough: Tier{Cases: 160000, PerJob: 2500, Seconds: 1500},
-		Rule: "one case = one entry point (AssembleFile incl. seed validation, VerifyIndex on a file with one damaged byte, ChopFile, Copy, ChunkStream, IndexFromFile, Tar, UnTar, UnTarIndex) with a tape-built workload and worker count; run A records a seeded schedule of S steps without cancellation, then the same schedule is re-run with the context cancelled before scheduling decision k for every k in 0..S+1 (S <= 150) or 60 tape-chosen k (sub_evaluations counts these runs); oracle: nil result => work complete (target == blob / every chunk stored / index covers the input / tree complete), the call returns, no panic; distinct = distinct (entry point, schedule hashes); non-trivial = at least one cancellation fired",
+		Rule:     "one case = one entry point (AssembleFile incl. seed validation, VerifyIndex on a file with one damaged byte, ChopFile, Copy, ChunkStream, IndexFromFile, Tar, UnTar, UnTarIndex) with a tape-built workload and worker count; run A records a seeded schedule of S steps without cancellation, then the same schedule is re-run with the context cancelled before scheduling decision k for every k in 0..S+1 (S <= 150) or 60 tape-chosen k (sub_evaluations counts these runs); oracle: nil result => work complete (target == blob / every chunk stored / index covers the input / tree complete), the call returns, no panic; distinct = distinct (entry point, schedule hashes); non-trivial = at least one cancellation fired",
 		Assumptions: []string{
 			"cancellation is delivered between two scheduling decisions (channel/lock/store operation granularity)",
 			"a cancelled call that did finish its work may return nil or an error; only nil with incomplete work is a violation",
@@ -74,7 +74,7 @@ func init() {
 	reg(&Prop{ID: "C06", Level: "exploration",
 		Quick:    Tier{Cases: 80000, PerJob: 5000, Seconds: 60},
 		Thorough: Tier{Cases: 3000000, PerJob: 50000, Seconds: 1500},
-		Rule: "one case = blob (2/3 built from few distinct chunks repeated so that workers race on one ID, 1/3 generic) x one of {ChopFile, Copy (with and without duplicate ids), ChunkStream, make = IndexFromFile + ChopFile} x n in 1..8 x optional pre-filled target x fault budget 0..3 (the k-th HasChunk / StoreChunk of the target or GetChunk of the source fails or is slow; 1/3 of the cases are fault-free); oracle: nil => no injected failure was returned to desync, every index chunk is in the target store with correct bytes, a produced index equals the reference table; error => some failure was injected; distinct = distinct (class, scheduler trace hash); non-trivial = preemption or fault fired",
+		Rule:     "one case = blob (2/3 built from few distinct chunks repeated so that workers race on one ID, 1/3 generic) x one of {ChopFile, Copy (with and without duplicate ids), ChunkStream, make = IndexFromFile + ChopFile} x n in 1..8 x optional pre-filled target x fault budget 0..3 (the k-th HasChunk / StoreChunk of the target or GetChunk of the source fails or is slow; 1/3 of the cases are fault-free); oracle: nil => no injected failure was returned to desync, every index chunk is in the target store with correct bytes, a produced index equals the reference table; error => some failure was injected; distinct = distinct (class, scheduler trace hash); non-trivial = preemption or fault fired",
 		Assumptions: []string{
 			"store failures are injected at call granularity (the call returns an error without side effect)",
 			"tar -i is covered through ChunkStream (the same function the command uses) with a byte reader instead of the tar pipe",
@@ -85,7 +85,7 @@ func init() {
 	reg(&Prop{ID: "C11", Level: "exploration",
 		Quick:    Tier{Cases: 160000, PerJob: 10000, Seconds: 60},
 		Thorough: Tier{Cases: 8000000, PerJob: 100000, Seconds: 1500},
-		Rule: "one case = chain shape as the CLI builds it (router of 1..3 elements, each a store or a failover group of 2..4, optionally under a cache with or without repair, optionally under a SwapStore with a second chain swapped in by a reconfiguration task) x per-member content per id {has, missing, invalid} x per-member fault schedule {healthy, always failing, failing during calls k..k+j} x 1..4 client tasks issuing 1..8 Get/Has over 2..4 ids under the seeded scheduler; oracle: per operation the member calls made by that task must be exactly the calls the documented policy makes given the observed member outcomes, and the result must be what the policy yields (swap: old chain before, new chain after, exactly one of them when overlapping; old members closed once, after their in-flight requests, never used afterwards); distinct = distinct (shape, clients, trace hash, member-call count); non-trivial = preemption or member fault fired",
+		Rule:     "one case = chain shape as the CLI builds it (router of 1..3 elements, each a store or a failover group of 2..4, optionally under a cache with or without repair, optionally under a SwapStore with a second chain swapped in by a reconfiguration task) x per-member content per id {has, missing, invalid} x per-member fault schedule {healthy, always failing, failing during calls k..k+j} x 1..4 client tasks issuing 1..8 Get/Has over 2..4 ids under the seeded scheduler; oracle: per operation the member calls made by that task must be exactly the calls the documented policy makes given the observed member outcomes, and the result must be what the policy yields (swap: old chain before, new chain after, exactly one of them when overlapping; old members closed once, after their in-flight requests, never used afterwards); distinct = distinct (shape, clients, trace hash, member-call count); non-trivial = preemption or member fault fired",
 		Assumptions: []string{
 			"which failover member is consulted at each attempt is not predicted (it depends on a shared index); the oracle bounds attempts by the group size and requires success whenever one member never fails",
 			"de-duplication queues in chains are covered by C12, not here",
@@ -96,7 +96,7 @@ func init() {
 	reg(&Prop{ID: "C09", Level: "exploration",
 		Quick:    Tier{Cases: 120000, PerJob: 7500, Seconds: 60},
 		Thorough: Tier{Cases: 6000000, PerJob: 100000, Seconds: 1500},
-		Rule: "one case = blob (empty, single short chunk, all-null, built from repeated chunks, generic with an inserted run of null chunks) x small chunk sizes x one of {IndexPos Seek/Read history of 1..60 operations with every whence, in/out-of-range and boundary offsets and read lengths 0..3*max; FUSE index-file node read requests (offset,size) in any order on 1..3 handles; the same on one handle shared by 2..3 concurrent tasks under the seeded scheduler} x store faults (k-th GetChunk fails or reports missing) in half of the cases; oracle = bytes.Reader-style model over the blob (returned bytes equal the blob range, short only at EOF or with an error, failed seek keeps the position, errors only when a fault was injected during the call, no panic); sub_evaluations = individual Seek/Read/FUSE requests; distinct = distinct (mode, sizes, faulty, chunk-count bucket, trace hash, outcome); every case is counted non-trivial (each is a multi-operation history)",
+		Rule:     "one case = blob (empty, single short chunk, all-null, built from repeated chunks, generic with an inserted run of null chunks) x small chunk sizes x one of {IndexPos Seek/Read history of 1..60 operations with every whence, in/out-of-range and boundary offsets and read lengths 0..3*max; FUSE index-file node read requests (offset,size) in any order on 1..3 handles; the same on one handle shared by 2..3 concurrent tasks under the seeded scheduler} x store faults (k-th GetChunk fails or reports missing) in half of the cases; oracle = bytes.Reader-style model over the blob (returned bytes equal the blob range, short only at EOF or with an error, failed seek keeps the position, errors only when a fault was injected during the call, no panic); sub_evaluations = individual Seek/Read/FUSE requests; distinct = distinct (mode, sizes, faulty, chunk-count bucket, trace hash, outcome); every case is counted non-trivial (each is a multi-operation history)",
 		Assumptions: []string{
 			"no FUSE mount is possible in the sandbox: the node methods (Open/Read/Getattr) are driven in process, the kernel <-> go-fuse path is not exercised",
 			"FUSE offsets are limited to 0..size as the kernel does after Getattr",
@@ -107,7 +107,7 @@ func init() {
 	reg(&Prop{ID: "C10", Level: "exploration",
 		Quick:    Tier{Cases: 40000, PerJob: 2500, Seconds: 60},
 		Thorough: Tier{Cases: 2000000, PerJob: 25000, Seconds: 1500},
-		Rule: "one case = blob <= 24 chunks (null-chunk runs, repeated chunks, generic) x 1..3 phases; each phase opens a SparseFile on the same cache/state files (a restart) and runs 1..4 concurrent reader tasks (ReadAt or the FUSE sparse-file node) with 1..12 reads each, 0..2 tasks that save the state at tape-chosen moments, optional preload from an earlier state with 0..4 workers, transient store failures / missing / latency (2/3 of the phases) or a store that fails every request after a restart (1/3 of later phases), process death at a tape-chosen scheduling step (1/4 of the phases; only files survive); between phases the state file may be removed or replaced by one of another length and the cache file removed, shrunk or grown; oracle per read: bytes == blob range or an error attributable to a store failure injected for one of its chunks during the call; distinct = distinct (class, trace hashes); non-trivial = preemption or fault fired",
+		Rule:     "one case = blob <= 24 chunks (null-chunk runs, repeated chunks, generic) x 1..3 phases; each phase opens a SparseFile on the same cache/state files (a restart) and runs 1..4 concurrent reader tasks (ReadAt or the FUSE sparse-file node) with 1..12 reads each, 0..2 tasks that save the state at tape-chosen moments, optional preload from an earlier state with 0..4 workers, transient store failures / missing / latency (2/3 of the phases) or a store that fails every request after a restart (1/3 of later phases), process death at a tape-chosen scheduling step (1/4 of the phases; only files survive); between phases the state file may be removed or replaced by one of another length and the cache file removed, shrunk or grown; oracle per read: bytes == blob range or an error attributable to a store failure injected for one of its chunks during the call; distinct = distinct (class, trace hashes); non-trivial = preemption or fault fired",
 		Assumptions: []string{
 			"process death is modelled by freezing every task at a scheduling point (file-system calls are scheduling points in half of the cases) and reopening from the files; this equals SIGKILL for file contents because the page cache survives process death and desync buffers nothing in user space on this path",
 			"reads with offset > size are only issued through ReadAt, not through the FUSE node (the kernel clamps them)",
@@ -118,7 +118,7 @@ func init() {
 	reg(&Prop{ID: "C17", Level: "fault_enumeration",
 		Quick:    Tier{Cases: 1600, PerJob: 100, Seconds: 60},
 		Thorough: Tier{Cases: 120000, PerJob: 1500, Seconds: 1500},
-		Rule: "one case = blob (generic, optionally with runs of different constant bytes so that equal-size chunks with different IDs exist; up to 400 chunks so that batch sizes > 1 occur) x worker count n in 1..64 (incl. n chosen so that chunks/(10n) >= 1); the intact file must verify; then every fault of the enumeration must be rejected: a single changed byte at EVERY position for blobs <= 1500 bytes, else at 24 positions biased to the first, last and batch-boundary chunks, truncation and extension by 1 and by tape-chosen amounts (also extension by a copy of the tail), and a swap of two equal-size chunks; every verification runs VerifyIndex with its n workers under the seeded scheduler (sub_evaluations = verifications); distinct = distinct (sizes, n, batch, trace hashes); non-trivial = a fault was applied",
+		Rule:     "one case = blob (generic, optionally with runs of different constant bytes so that equal-size chunks with different IDs exist; up to 400 chunks so that batch sizes > 1 occur) x worker count n in 1..64 (incl. n chosen so that chunks/(10n) >= 1); the intact file must verify; then every fault of the enumeration must be rejected: a single changed byte at EVERY position for blobs <= 1500 bytes, else at 24 positions biased to the first, last and batch-boundary chunks, truncation and extension by 1 and by tape-chosen amounts (also extension by a copy of the tail), and a swap of two equal-size chunks; every verification runs VerifyIndex with its n workers under the seeded scheduler (sub_evaluations = verifications); distinct = distinct (sizes, n, batch, trace hashes); non-trivial = a fault was applied",
 		Assumptions: []string{
 			"single-byte change = one bit flipped in that byte; other byte values are covered by the hash's properties, not enumerated",
 			"exhaustive over byte positions only for blobs <= 1500 bytes (stated per case in the notes)",
@@ -129,12 +129,24 @@ func init() {
 	reg(&Prop{ID: "C03", Level: "fault_enumeration",
 		Quick:    Tier{Cases: 12800, PerJob: 800, Seconds: 70},
 		Thorough: Tier{Cases: 160000, PerJob: 2000, Seconds: 1500},
-		Rule: "one case = backend {LocalStore, RemoteHTTP client -> in-process transport -> HTTPHandler -> LocalStore, casync protocol client <-> ProtocolServer over a pipe (server store configured as `desync pull` does)} x upstream format {compressed, uncompressed} x server compression/verification settings x wrapper stack {none, cache, cache+repair, router, failover group, dedup queue, swap(dedup(cache(router(failover))))} x chunk (1..300 bytes, 1/4 up to 4 KiB); the stored object is then corrupted in every way of the enumeration and fetched through a fresh stack each time: a bit flip in EVERY byte and truncation to EVERY length when the stored object is <= 512 bytes (64 sampled each otherwise), replaced by another valid object / a valid zstd frame of other data / raw bytes / the other format, garbage, junk before or after; plus a corrupted cache entry and one extract or cat pipeline over a poisoned store; oracle: error, or data hashing to the requested ID (pipelines: error or exactly the blob); sub_evaluations = faulted fetches; distinct = distinct (backend, formats, stack, tape); non-trivial = a fault was applied",
+		Rule:     "one case = backend {LocalStore, RemoteHTTP client -> in-process transport -> HTTPHandler -> LocalStore, casync protocol client <-> ProtocolServer over a pipe (server store configured as `desync pull` does)} x upstream format {compressed, uncompressed} x server compression/verification settings x wrapper stack {none, cache, cache+repair, router, failover group, dedup queue, swap(dedup(cache(router(failover))))} x chunk (1..300 bytes, 1/4 up to 4 KiB); the stored object is then corrupted in every way of the enumeration and fetched through a fresh stack each time: a bit flip in EVERY byte and truncation to EVERY length when the stored object is <= 512 bytes (64 sampled each otherwise), replaced by another valid object / a valid zstd frame of other data / raw bytes / the other format, garbage, junk before or after; plus a corrupted cache entry and one extract or cat pipeline over a poisoned store; oracle: error, or data hashing to the requested ID (pipelines: error or exactly the blob); sub_evaluations = faulted fetches; distinct = distinct (backend, formats, stack, tape); non-trivial = a fault was applied",
 		Assumptions: []string{
 			"S3 and SFTP backends are not exercised in this tier (they construct chunks through the same NewChunkFromStorage call; see DESIGN.md)",
 			"no hop facing the caller has SkipVerify set; server-side stores may (the client hop verifies)",
 		},
 		Real: []string{"NewChunkFromStorage", "Chunk.Data/ID", "LocalStore", "RemoteHTTP", "HTTPHandler", "Protocol", "ProtocolServer", "Cache", "RepairableCache", "StoreRouter", "FailoverGroup", "DedupQueue", "SwapStore", "AssembleFile", "IndexPos"},
 		Stub: []string{"HTTP transport (in-process RoundTripper)", "ssh transport (in-process pipe)", "fault injector on stored objects"},
+	})
+	reg(&Prop{ID: "C14", Level: "exploration",
+		Quick:    Tier{Cases: 48000, PerJob: 3000, Seconds: 70},
+		Thorough: Tier{Cases: 2400000, PerJob: 40000, Seconds: 1500},
+		Rule:     "one case = one of {chunk GET/HEAD/PUT through the real RemoteHTTP client and HTTPHandler over an in-process transport, for every combination of client/server -u, upstream format, verify flags per hop; index GET/PUT through RemoteHTTPIndex and HTTPIndexHandler (optionally chained behind a second index server) and HEAD on the index handler; a casync-protocol session of 1..8 requests against ProtocolServer over a pipe with byte-wise fragmentation and the connection cut after a tape-chosen byte} x response script (0..7 transient failures out of {connection reset, 500, 503, short body, response delayed past the client time-out}, then served / 404 / 400 / 403) x error-retry 0..5 x back-off base 1..500 ms, all in fake time; oracle: payload byte-identical, missing <=> ChunkMissing/NoSuchObject/false/404, failures never reported as missing or success, transient runs shorter than the budget invisible, requests seen == min(f+1, max(1, error-retry)), simulated time spent == documented linear back-off (+ time-outs); distinct = distinct (class incl. script shape, trace hash / tape); non-trivial = a transport fault fired or a multi-request session ran",
+		Assumptions: []string{
+			"client and server agree on -u (the chunk file extension is part of the request path); mismatched pairs are a configuration error and not generated",
+			"after a missing chunk the protocol server ends the session; later requests on that session may fail but must not be answered wrongly",
+			"TLS, authentication headers and real sockets are not exercised",
+		},
+		Real: []string{"RemoteHTTP", "RemoteHTTPIndex", "IssueRetryableHttpRequest", "HTTPHandler", "HTTPIndexHandler", "Converters", "Protocol", "ProtocolServer", "LocalStore", "LocalIndexStore"},
+		Stub: []string{"HTTP transport (scripted in-process RoundTripper)", "ssh pipe", "fake clock (synctest)"},
 	})
 }
